@@ -108,7 +108,7 @@ theorem trusted_kept (wd : World) (op : ScrOp) (ht : wd.trusted = true)
 def rwDemo : Rune → Int := fun r => if r = 0x4e16 then 2 else if r = 0 ∨ r = 0x301 then 0 else 1
 def cfgDemo : DrawCfg :=
   { rw := rwDemo, payload := fun m comb => Utf8.encode m ++ comb.flatMap Utf8.encode, hasHide := true, cornerTrick := false,
-    guardLocked := false }   -- the pinned drawCell, whatever `currentGuardsLockedNeighbour` says
+    guardLocked := false, walkGuard := false }   -- the pinned drawCell, whatever the `current…` defaults say
 
 theorem cfgDemo_plain : cfgDemo.Plain := ⟨rfl, fun h => absurd h (by decide)⟩
 
